@@ -102,7 +102,7 @@ def evaluate(ctx, cases):
             plan.append(dict(kind='epoch', df=df, got=got, L=L, n=len(x), j=len(reqs) - 2, coincide=bool(len(nxt) and any(v % L == 0 for v in nxt))))
         else:
             x, fs, fr = _flat_signal(c['seed'], c['n_ep'] * c['L'])
-            sigs = x.reshape(c['n_ep'], c['L'])
+            sigs = implutil.layout_nd(x.reshape(c['n_ep'], c['L']), c['seed'])          # C / Fortran / read-only / strided memory layout
             o0 = _opts(c, 0)
             if c['kw'] == 'none':
                 kwv = None; o0 = {'center_extrema': 'peak', 'burst_method': 'cycles', 'threshold_kwargs': {}}
@@ -179,6 +179,20 @@ def evaluate(ctx, cases):
                         exp_model[e] = implutil.quiet(detect_bursts_cycles if c['method'] == 'cycles' or c['kw'] == 'none' else detect_bursts_amp, t.copy(), **th)
                 judge_ok = _cmp_tables(p['got'], exp, info, 'judge')
                 corr_ok = _cmp_tables(p['got'], exp_model, info, 'model')
+                if judge_ok and c['kw'] in ('list', 'alias') and c['method'] == 'cycles':
+                    # the labels of every re-labelled epoch against the Lean specification of the label rule (cyclesSpec), not against the
+                    # implementation's own detect_bursts_cycles: each epoch is labelled ON ITS OWN (first and last cycle never burst)
+                    FE = ['amp_fraction', 'amp_consistency', 'period_consistency', 'monotonicity']
+                    lr = []
+                    for e, t in enumerate(p['got']):
+                        th = _opts(c, e if c['kw'] == 'list' else 0)['threshold_kwargs']
+                        rows = '[' + ','.join('[' + ','.join(proto.enc_rat(float(t[f].values[i])) for f in FE) + ']' for i in range(len(t))) + ']'
+                        lr.append('cycles.spec %s [%s]' % (rows, ','.join(proto.enc_rat(th[k]) for k in [f + '_threshold' for f in FE] + ['min_n_cycles'])))
+                    for e, (a, t) in enumerate(zip(proto.run_driver(lr), p['got'])):
+                        want = a[1] if isinstance(a, list) and a and a[0] == 'ok' else a
+                        have = proto.enc_bits(list(t['is_burst'].values.astype(bool)))
+                        if want != have:
+                            judge_ok = False; info['judge'] = 'epoch %d: labels %s, the label rule applied to the epoch alone gives %s' % (e, have, want); break
             nonempty = sum(1 for ep in spec if ep)
             ctx.hist('e2e_kw', c['kw']); ctx.hist('empty_epochs', any(not ep for ep in spec))
         out.append(Result(c, judge_ok=judge_ok, corr_ok=corr_ok, sig=key, nontrivial=nonempty >= 2, info=info))
